@@ -72,7 +72,7 @@ theorem _root_.KafVerif.C40.runTool_preserves_state (s : Store) (tc : ToolCall) 
       simp only [runTool]
       apply runCalls_readOnly
       intro c hc
-      simp only [exec, List.mem_map] at hc
+      simp only [List.mem_map] at hc
       obtain ⟨tp, _, rfl⟩ := hc
       simp [Call.method, readOnly]
   | describeConfigs topics =>
@@ -111,6 +111,77 @@ theorem _root_.KafVerif.C40.mutators_change_state (m : Method) (h : m ∉ readOn
   | createTopic => exact ⟨empty 1, .createTopic 0 2, rfl, by decide⟩
   | deleteTopic => exact ⟨{ empty 1 with topics := [(0, 1)] }, .deleteTopic 0, rfl, by decide⟩
 
+/-! ### aliasing: reads hand out copies, never store-owned buffers -/
+
+/-- every buffer id the store references exists in the heap -/
+def HStore.WF (h : HStore) : Prop := ∀ b ∈ h.owned, b < h.heap.length
+
+theorem getD_set_ne (heap : List (List Nat)) (b b' : Nat) (d : List Nat) (hne : b' ≠ b) :
+    (heap.set b d).getD b' [] = heap.getD b' [] := by
+  simp [List.getD, hne.symm]
+
+/-- **reads return copies**: every buffer `readCopy` hands out is fresh — it is not one the store's
+state references (for every well-formed store, however its lists are ordered or duplicated). -/
+theorem _root_.KafVerif.C40.read_returns_fresh_buffers (h : HStore) (hw : h.WF) :
+    ∀ b ∈ (readCopy h).2, b ∉ (readCopy h).1.owned := by
+  intro b hb hm
+  simp only [readCopy, List.mem_map, List.mem_range] at hb
+  obtain ⟨i, _, rfl⟩ := hb
+  have := hw _ hm
+  omega
+
+/-- the copy itself leaves what the store holds unchanged, order included -/
+theorem readCopy_view (h : HStore) (hw : h.WF) : (readCopy h).1.view = h.view := by
+  simp only [readCopy, HStore.view]
+  apply List.map_congr_left
+  intro b hb
+  have := hw b hb
+  simp [List.getD, List.getElem?_append_left this]
+
+/-- **C40 (aliasing).** Whatever a handler then writes into ANY of the buffers a read handed out
+(sorting, truncating, overwriting — any contents, any number of writes), what the store holds is
+unchanged: same lists, same order. -/
+theorem _root_.KafVerif.C40.handler_writes_preserve_store (h : HStore) (hw : h.WF)
+    (writes : List (Nat × List Nat)) (hret : ∀ w ∈ writes, w.1 ∈ (readCopy h).2) :
+    (writes.foldl (fun hs w => handlerWrite hs w.1 w.2) (readCopy h).1).view = h.view := by
+  have hfresh := KafVerif.C40.read_returns_fresh_buffers h hw
+  rw [← readCopy_view h hw]
+  generalize hr : readCopy h = r at hfresh hret
+  obtain ⟨h1, ret⟩ := r
+  simp only at hfresh hret ⊢
+  suffices ∀ (hs : HStore), hs.owned = h1.owned → hs.view = h1.view →
+      (writes.foldl (fun hs w => handlerWrite hs w.1 w.2) hs).view = h1.view from this h1 rfl rfl
+  induction writes with
+  | nil => intro hs _ hv; exact hv
+  | cons w t ih =>
+    intro hs ho hv
+    simp only [List.foldl_cons]
+    apply ih (fun w' hw' => hret w' (List.mem_cons_of_mem _ hw'))
+    · simpa [handlerWrite] using ho
+    · rw [← hv]
+      simp only [handlerWrite, HStore.view]
+      apply List.map_congr_left
+      intro b hb
+      have hne : b ≠ w.1 := by
+        intro e
+        have h1' := hret w List.mem_cons_self
+        rw [← e] at h1'
+        rw [ho] at hb
+        exact hfresh b h1' hb
+      exact getD_set_ne hs.heap w.1 b w.2 hne
+
+/-- without the deep clone the same handler write DOES change the store: a read that hands out the
+store's own buffers plus a handler that sorts its argument rewrites the stored replica order
+(the shape of the seeded change C40-1; kept so a regression is recognised). -/
+theorem _root_.KafVerif.C40.aliasing_read_breaks_store :
+    ∃ (h : HStore) (b : Nat) (d : List Nat), h.WF ∧ b ∈ (readAlias h).2 ∧
+      (handlerWrite (readAlias h).1 b d).view ≠ h.view := by
+  refine ⟨⟨[[2, 0, 1]], [0]⟩, 0, [0, 1, 2], ?_, by decide, by decide⟩
+  intro b hb
+  simp at hb
+  subst hb
+  decide
+
 /-! ### non-vacuity: the handler models do read a populated store -/
 
 def sample : Store :=
@@ -123,5 +194,8 @@ example : (runTool sample (.describeConfigs [])).2 = .configs [(0, ⟨1, 5000⟩
 example : (runTool sample (.describeConfigs [0, 9])).2 = .error := by decide
 example : (runTool sample (.describeGroup (some 1))).2 = .group 1 ⟨0, 3, [1, 2]⟩ := by decide
 example : (runTool sample .listTopics).2 = .topics none [(0, 1, 0), (1, 3, 0)] := by decide
+/-- stored replica order (non-ascending, with duplicates) is what describe_topics reports -/
+example : (runTool { sample with layouts := [((0, 0), layoutOf 4 0)] } (.describeTopics [0])).2 =
+    .topicDetails [(0, 0, [⟨0, [2, 2, 0], [1, 2, 0], []⟩])] := by decide
 
 end KafVerif.Mcp
